@@ -393,12 +393,63 @@ pub fn check_c14(ctx: &Ctx, sc: &SeqCase, st: &mut Stats) -> Result<(), Fail> {
     Ok(())
 }
 
+
+/// a generator that lives for thousands of calls: what it holds after `reset()` must not keep growing
+/// (buffers may keep the capacity of the largest pickle seen; nothing may accumulate per call)
+fn check_c14_long_lived(ctx: &Ctx, protocol: u8, ext: bool, st: &mut Stats) -> Result<(), Fail> {
+    let mut base = GenCase::default_for(protocol, ctx.seed ^ 0x11fe ^ protocol as u64);
+    base.allow_ext = ext;
+    base.allow_buffer = ext;
+    base.mutators = vec![case::MutK::Boundary, case::MutK::Stringlen];
+    let (warm, measured) = (400usize, if ctx.thorough() { 20_000usize } else { 3_000 });
+    let run = move || -> (i64, i64) {
+        let mut g = base.build(None);
+        let input = |i: usize| -> Vec<u8> { (0..96).map(|k| ((i * 131 + k * 17) ^ (i >> 3)) as u8).collect() };
+        for i in 0..warm {
+            let _ = call_gen(&mut g, &Entropy::Bytes(input(i)));
+            g.seed = Some(i as u64 ^ 0xabcd);
+            let _ = call_gen(&mut g, &Entropy::Seed(0));
+        }
+        g.reset();
+        let a = alloc::live();
+        for i in warm..warm + measured {
+            if i % 3 == 0 {
+                let _ = call_gen(&mut g, &Entropy::Bytes(input(i)));
+            } else {
+                // a different seed per call, through the public field
+                g.seed = Some((i as u64).wrapping_mul(0x9e37_79b9_7f4a_7c15));
+                let _ = call_gen(&mut g, &Entropy::Seed(0));
+            }
+        }
+        g.reset();
+        let b = alloc::live();
+        (a, b)
+    };
+    let (a, b) = std::thread::Builder::new().stack_size(64 << 20).spawn(run).expect("spawn").join().map_err(|_| Fail::new("harness:thread", "measurement thread died".to_string()))?;
+    st.evaluations += measured as u64;
+    st.add("long-lived generator: calls between the two measurements after reset()", measured as u64);
+    st.nontrivial(util::digest_str(&format!("ll{}{}", protocol, ext)));
+    // capacities settle during the warm-up; 256 KiB is room for a late largest-ever pickle, far below what
+    // retaining even 100 bytes per call adds up to
+    if b - a > 256 * 1024 {
+        return ctx.fail(
+            st,
+            Fail::new(
+                "leak:grows-across-resets",
+                format!("protocol {} ext/buffer={}: one generator, {} warm-up calls, then {} calls: live heap after reset() grew from {} to {} bytes (+{})", protocol, ext, warm, measured, a, b, b - a),
+            ),
+        );
+    }
+    Ok(())
+}
+
 pub fn run_c14(ctx: &Ctx) -> Outcome {
     let mut out = Outcome::new(
         "Sequences of generate / generate_from_arbitrary / reset (length 1..6) followed by drop, all protocols and configurations incl. unsafe. \
          Oracle: per-thread live-bytes counter of a counting #[global_allocator] in the harness; after one warm-up generation per thread, \
          live(before Generator::new) == live(after drop), exact equality. Non-trivial = an output contains a DUP byte followed later by an \
-         APPEND/SETITEM/BUILD/APPENDS/SETITEMS/ADDITEMS byte (the shape in which aliasing could form a cycle). Plus, for the one long-running \
+         APPEND/SETITEM/BUILD/APPENDS/SETITEMS/ADDITEMS byte (the shape in which aliasing could form a cycle). Long-lived generators (12: protocol x \
+         opt-in flags): live bytes after reset() after 400 calls and after 3 000 more must not differ by more than 256 KiB. Plus, for the one long-running \
          process the tool ships (CLI batch mode): the peak resident set (/usr/bin/time %M) of a 300-pickle and of a 6 000-pickle (24 000 thorough) \
          batch of 1500..2500-opcode pickles, two protocols and worker counts; oracle: the difference stays below half of the bytes the larger \
          batch wrote (>= 32 MiB), i.e. the process does not keep what it has generated; and for the Python front end (the Atheris mutator): \
@@ -411,6 +462,26 @@ pub fn run_c14(ctx: &Ctx) -> Outcome {
     let r = run_prop(ctx, 1, ctx.n(60_000, 2_000_000), || seq_strategy(&p, 6), |c: &SeqCase, st: &mut Stats| check_c14(ctx, c, st));
     out.absorb(r);
     out.assumptions = vec!["allocations are counted per thread; a generator lives and dies on one thread".into()];
+    if !out.failed() && out.inconclusive.is_none() {
+        'll: for p in 0u8..=5 {
+            for ext in [false, true] {
+                let mut st = Stats::default();
+                let r = check_c14_long_lived(ctx, p, ext, &mut st);
+                out.stats.merge(st);
+                match r {
+                    Ok(()) => {}
+                    Err(f) if f.sig.starts_with("harness:") => {
+                        out.inconclusive = Some(f.msg);
+                        break 'll;
+                    }
+                    Err(f) => {
+                        out.violation = Some(Violation { fail: f, case: json!({"c14_long_lived": {"protocol": p, "ext": ext}}) });
+                        break 'll;
+                    }
+                }
+            }
+        }
+    }
     crate::props::frontends::run_c14_cli(ctx, &mut out);
     crate::props::frontends::run_c14_python(ctx, &mut out);
     out
@@ -607,4 +678,9 @@ pub fn check_c07_inproc(ctx: &Ctx, c: &GenCase, st: &mut Stats) -> Result<(), Fa
         }
         _ => ctx.fail(st, Fail::new("nondeterministic:outcome", "generation succeeded in one run and failed in another".to_string())),
     }
+}
+
+pub fn replay_c14_long_lived(ctx: &Ctx, v: &serde_json::Value) -> Result<(), Fail> {
+    let mut st = Stats::default();
+    check_c14_long_lived(ctx, v["protocol"].as_u64().unwrap_or(2) as u8, v["ext"].as_bool().unwrap_or(true), &mut st)
 }
